@@ -239,6 +239,8 @@ func runC08(c *core.Ctx) {
 	allOrNothing(c, "C08.R2", la.fns)
 	c08Seal(c, la)
 	c08LockOrder(c, la)
+	bufferCommitAfterStore(c, "C08.R6")
+	serverTagReadIsOneCall(c, "C08.R7")
 }
 
 // acquires: does calling fn (transitively, within the package) acquire lock tok?
